@@ -59,12 +59,6 @@ NOT_APPLICABLE = {
            'g.next_id()) (a closure that mutates the graph): none of it has a Verus specification and regex cannot be given one '
            'short of re-stating it; only the loop of deploy_to() (count = number of commands, stop at the first Err) is within '
            'reach, which is not the property; Kani cannot execute regex',
-    'C17': 'probed in this build: Verus accepts the text of Label::from_str except `enumerate()` (a provided trait method cannot be '
-           'given a specification), but vstd leaves exactly the functions the property is about unspecified - str::len (BYTE '
-           'length: the observed defect, a two-byte Greek letter is not parsed as Greek, lives here), chars().skip(), '
-           'String: FromIterator<char>, str::parse::<usize>, starts_with - and Display is format!/collect over chars; a contract '
-           'would have to axiomatise the string functions, i.e. assume what is to be shown; Kani timed out (15 min) on a '
-           'one-character input',
 }
 
 GRAPH_TRUSTED = [
@@ -354,6 +348,50 @@ PROPS = {
                      'the characters of the output (what format! does with its literal)'],
         assumptions=['the graph is well-formed (wf); v_print / inspect: v below the capacity; inspect: edge targets are ids '
                      'below the capacity (an invariant of every history: lemmas L13)'],
+    ),
+    'C17': dict(
+        units=['U_label', 'U_labeldisp'], level='proof',
+        technique='contract-based deductive verification (Verus) of the real Label::from_str, Debug::fmt and Display::fmt of '
+                  'src/label.rs: the round-trip clauses of the statement are the postconditions of from_str over label_text, '
+                  'the text fmt is proved to write; the std string / iterator / format! functions the bodies call are trusted '
+                  'contracts over vstd\'s Seq<char> view of str',
+        level_text='Unbounded proof (every text, every label value) on the extracted real from_str / fmt: (1) for every label '
+                   'text of 1 to 8 non-space characters (alpha sign + canonical decimal index, or not starting with the alpha '
+                   'sign) from_str returns Ok(l) with label_text(l) == text; (2) for every single character c, every index n '
+                   'and every name of 2 to 8 non-space characters padded to eight that does not start with the alpha sign, '
+                   'from_str(label_text(value)) == Ok(value); (3) a text of more than 8 characters not starting with the alpha '
+                   'sign, and an alpha sign followed by a text usize::from_str refuses, give Err; Debug::fmt and Display::fmt '
+                   'append exactly label_text(value) = the character / the alpha sign and the decimal index / the name '
+                   'without its padding; lemma: distinct texts give distinct labels. The loop of from_str terminates and '
+                   'writes inside the array (safety obligations).',
+        level_note='Trusted (std semantics, stated over vstd\'s views, listed in the evidence): str::starts_with(char), '
+                   'str::parse::<usize> as a partial function of the text with usize_parse(dec_text(n)) == Some(n), '
+                   'Chars::count, String: FromIterator<char>/<&char>, Enumerate::next, Iterator::filter on a slice iterator, '
+                   'format! of a literal with one placeholder after a brace-free prefix, Display of char and usize, '
+                   'Formatter::write_str, `impl Debug for &T` forwards to T; str::len is the UTF-8 length (vstd::utf8). '
+                   'KNOWN-FINDING C17-2: a name (Str) value whose first character is the alpha sign prints a text that is '
+                   'read back as an index. The clause "an edge bound under a parsed name is found under the same name built '
+                   'directly" is the composition with C03 (kid() compares labels with ==, structural by the Kani harness).',
+        design_ref='DESIGN.md §4 C17',
+        trusted_base=[
+            'shim/stdstr.rs: str::starts_with / str::parse::<usize> / Chars::count / String: FromIterator / Enumerate::next '
+            '(assume_specification + axioms); T13 wrappers __w_enumerate (vec::IntoIter<char>), __w_filter (slice::Iter<char>), '
+            '__w_len (str: UTF-8 length): external_body trait methods whose body is the std call',
+            'axiom_dec_text: Display for usize writes a non-empty digit string that usize::from_str reads back; '
+            'axiom_char_text: Display for char writes the character; axiom_fmt_one_slot: format! of "PREFIX{name}"',
+            'vstd: str view, Chars / Skip / vec::IntoIter / slice::Iter prophetic iterator models, collect into Vec, arrays',
+            'U_labeldisp: `impl Debug for &T` forwards to T (assume_specification) + axiom_dbg_label (for Label that is the '
+            'contract proved in U_label) + axiom_fmt_req_label',
+            'anyhow::Error opaque; From<ParseIntError> for it (the `?`)'],
+        explanation='from_str-parsing-then-printing-returns-the-text, from_str-printing-then-parsing-a-single-character / '
+                    '-an-index / -a-name / -a-name-that-starts-with-the-alpha-sign (KNOWN-FINDING C17-2), '
+                    'from_str-rejects-more-than-eight-characters, from_str-rejects-a-malformed-index, the loop obligations '
+                    '(walks-the-characters, fills-the-padded-array, branch-context), fmt-writes-the-label-text, '
+                    'display-writes-the-label-text, lemmas L17-*.',
+        not_covered=['the characters std produces for a usize (dec_text is uninterpreted: non-empty digits, read back by parse)',
+                     'which texts usize::from_str accepts beyond canonical numerals ("+5", "007" are accepted by std: not "malformed")',
+                     'kid() lookups with parsed vs constructed labels: composition with C03, not a separate obligation'],
+        assumptions=['the std contracts of shim/stdstr.rs'],
     ),
     'C11': dict(
         units=['U_mergelog', 'U_ops'], level='proof',
